@@ -1,19 +1,17 @@
 (* C09: the model's own trace satisfies the Spec oracle, for every well-formed history outside the
    input classes of the open findings.  Simulation between Model.Attach.st and Spec.C09.chk. *)
-From Coq Require Import List Bool Ascii Arith NArith Lia String.
-From TxVerif Require Import Lib.Bytes Lib.Dec Spec.C09 Model.Attach Proofs.C09Proofs.
+From Coq Require Import List Bool Ascii Arith NArith Lia String Permutation.
+From TxVerif Require Import Lib.Bytes Lib.Dec Spec.C09 Model.Attach Proofs.C09Proofs Proofs.C09Sort.
 Import ListNotations.
 Open Scope N_scope.
+
+Definition find_addr (ip port : N) (l : list ((N * N) * nat)) : option nat :=
+  match find (fun p => (fst (fst p) =? ip) && (snd (fst p) =? port)) l with Some p => Some (snd p) | None => None end.
 
 (* ------------------------------------------------------------------ abstraction *)
 Definition slot_of (v : slotv) : satt := match v with VCustom j => SCustom j | VPrio => SPrio | VCirc => SCirc end.
 Definition pa_of (p : pend) : pa := {| pa_sid := p_sid p; pa_kind := p_kind p; pa_fired := p_fired p |}.
 Definition entry_of (r : reg) : (N * N) * (nat * nat) := ((r_ip r, r_port r), (r_oid r, r_k r)).
-Definition hent_at (i : nat) (x : sub) : hent :=
-  {| h_prio := sb_prio x; h_cnt := N.of_nat i; h_att := if sb_live x then Some (sb_j x) else None |}.
-Fixpoint hents (i : nat) (l : list sub) : list hent :=
-  match l with [] => [] | x :: r => hent_at i x :: hents (S i) r end.
-
 Definition att_rel (a : option cres) (b : option bool) : Prop :=
   match a, b with
   | None, None => True
@@ -60,10 +58,9 @@ Record R (s : st) (k : chk) : Prop := {
   R_sids : sids (t k) = strs s;
   R_slot : slot s = option_map slot_of (inst (t k));
   R_pas : pas (t k) = map pa_of (pends s);
-  R_heap : heap s = hents 0 (subs (t k));
+  R_heap : Permutation (heap s) (hents 0 (subs (t k)));
   R_cnt : Attach.cnt s = N.of_nat (List.length (subs (t k)));
   R_entry : forall j, assoc_get j (entry s) = live_index j 0 (subs (t k));
-  R_sorted : prio_sorted (subs (t k)) = true;
   R_table : table s = map entry_of (regs k);
   R_conns : Forall2 stage_flags (conns s) (cns k);
   R_expect : expect k = map parse_cmd (qlines s);
@@ -89,6 +86,11 @@ Record R (s : st) (k : chk) : Prop := {
              find_addr (r_ip r) (r_port r) (addrs (t k)) = Some (r_k r) /\
              exists cn, find_conn (r_k r) (conns s) = Some cn /\ k_oid cn = r_oid r /\
                         (k_stage cn = KLocal \/ k_stage cn = KWaitAtt \/ k_stage cn = KDone);
+  R_fired_st : forall oid c, nth_error (objs s) oid = Some c -> c_fired c = Some FOk ->
+                 c_st c = CBuilt \/ c_terminal (c_st c) = true;
+  R_started : forall cn, In cn (conns s) -> k_stage cn = KStarted ->
+                exists c, nth_error (objs s) (k_oid cn) = Some c /\ c_fired c = Some FOk;
+  R_regs_fired : forall r, In r (regs k) -> exists c, nth_error (objs s) (r_oid r) = Some c /\ c_fired c = Some FOk;
   R_conts : NoDup (kconns s) /\ forall kk, In kk (kconns s) -> at_setconf s kk;
   (* priority attacher: one live entry per sub-attacher *)
   R_live1 : forall j i1 i2 x1 x2, nth_error (subs (t k)) i1 = Some x1 -> nth_error (subs (t k)) i2 = Some x2 ->
@@ -111,11 +113,11 @@ Qed.
 Ltac same_fields H :=
   first [ exact (R_incs _ _ H) | exact (R_alive _ _ H) | exact (R_sids _ _ H) | exact (R_slot _ _ H)
         | exact (R_pas _ _ H) | exact (R_heap _ _ H) | exact (R_cnt _ _ H) | exact (R_entry _ _ H)
-        | exact (R_sorted _ _ H) | exact (R_table _ _ H) | exact (R_conns _ _ H) | exact (R_expect _ _ H)
+        | exact (R_table _ _ H) | exact (R_conns _ _ H) | exact (R_expect _ _ H)
         | exact (R_chan _ _ H) | exact (R_cinv _ _ H) | exact (R_ids _ _ H) | exact (R_oos _ _ H)
         | exact (R_built_fired _ _ H) | exact (R_alive_fired _ _ H) | exact (R_wait _ _ H)
         | exact (R_ca _ _ H) | exact (R_via _ _ H) | exact (R_kids _ _ H) | exact (R_conn_oid _ _ H)
-        | exact (R_nodup _ _ H) | exact (R_regs _ _ H) | exact (R_conts _ _ H) | exact (R_live1 _ _ H) | idtac ].
+        | exact (R_nodup _ _ H) | exact (R_regs _ _ H) | exact (R_fired_st _ _ H) | exact (R_started _ _ H) | exact (R_regs_fired _ _ H) | exact (R_conts _ _ H) | exact (R_live1 _ _ H) | idtac ].
 
 (* ------------------------------------------------------------------ projections of event lists *)
 Lemma askeds_app a b : askeds (a ++ b) = askeds a ++ askeds b.
@@ -476,9 +478,10 @@ Lemma R_put_conn s k kk cn n c' n' :
   k_id c' = kk -> k_oid c' = k_oid cn -> stage_flags c' n' ->
   ~ In kk (kconns s) -> not_waiting s kk ->
   (in_reg_stage (k_stage cn) -> in_reg_stage (k_stage c')) ->
+  (k_stage c' = KStarted -> exists c, nth_error (objs s) (k_oid cn) = Some c /\ c_fired c = Some FOk) ->
   R (with_conns s (put_conn c' (conns s))) {| t := t k; regs := regs k; cns := upd_cn n' (cns k); expect := expect k |}.
 Proof.
-  intros H F Fn Hid Hoid SF Hnk Hnw Hreg.
+  intros H F Fn Hid Hoid SF Hnk Hnw Hreg Hstd.
   pose proof (find_conn_id _ _ _ F) as [Hcid Hcin].
   destruct (put_conn_ids c' (conns s) cn (R_nodup _ _ H)) as [Hids1 Hids2]; [rewrite Hid; exact F | exact Hoid |].
   assert (Fother : forall k0, k0 <> kk -> find_conn k0 (put_conn c' (conns s)) = find_conn k0 (conns s)).
@@ -500,6 +503,8 @@ Proof.
     + rewrite E in *. rewrite F in F0. injection F0 as <-. exists c'. rewrite Fsame.
       split; [reflexivity|]. split; [congruence | apply Hreg; exact S0].
     + exists cn0. rewrite Fother by exact Hne. auto.
+  - intros c Hin St. apply in_put_conn in Hin as [->|Hin]; [|exact (R_started _ _ H c Hin St)].
+    rewrite Hoid. exact (Hstd St).
   - destruct (R_conts _ _ H) as [ND AS]. split; [exact ND|].
     intros k0 Hin. destruct (AS k0 Hin) as (cn0 & F0 & S0).
     assert (k0 <> kk) by (intros ->; exact (Hnk Hin)).
@@ -595,6 +600,7 @@ Proof.
     eapply R_put_conn; eauto.
     + unfold stage_flags. cbn. repeat split; auto; congruence.
     + cbn [k_stage]. intros _. right. right. reflexivity.
+    + cbn [k_stage]. discriminate.
 Qed.
 
 Lemma not_waiting_of_stage s k kk cn : R s k -> find_conn kk (conns s) = Some cn -> k_stage cn <> KWaitBuilt ->
@@ -629,6 +635,13 @@ Proof.
     split; [congruence|]. intros k0 Hin. apply in_app_or in Hin as [Hin|[<-|[]]]; [exact (Hw k0 Hin)|].
     exists cn. auto.
   - intros x Hin. rewrite set_nth_length. exact (R_conn_oid _ _ H x Hin).
+  - intros oid' x X Fx. apply Hget in X as [[-> ->]|[_ X]]; [discriminate Fx | exact (R_fired_st _ _ H _ _ X Fx)].
+  - intros x Hin St. destruct (R_started _ _ H x Hin St) as (c0 & E0 & F0).
+    destruct (Nat.eq_dec (k_oid x) oid) as [Eq|Hne]; [rewrite Eq in E0; congruence|].
+    exists c0. split; [rewrite nth_error_set_nth_neq by congruence; exact E0 | exact F0].
+  - intros r Hr. destruct (R_regs_fired _ _ H r Hr) as (c0 & E0 & F0).
+    destruct (Nat.eq_dec (r_oid r) oid) as [Eq|Hne]; [rewrite Eq in E0; congruence|].
+    exists c0. split; [rewrite nth_error_set_nth_neq by congruence; exact E0 | exact F0].
 Qed.
 
 Lemma set_stage_with_objs s x kk g : set_stage (with_objs s x) kk g = with_objs (set_stage s kk g) x.
@@ -685,7 +698,8 @@ Proof.
                      {| t := t k; regs := regs k; cns := upd_cn n (cns k); expect := expect k |}).
       { eapply R_put_conn; eauto.
         - subst cn'. unfold stage_flags. cbn. split; [congruence|]. split; [exact Ho | exact SF].
-        - rewrite Hst. intros [X|[X|X]]; discriminate. }
+        - rewrite Hst. intros [X|[X|X]]; discriminate.
+        - subst cn'. cbn [k_stage]. discriminate. }
       rewrite upd_cn_same in H1; [|exact (cns_nodup _ _ H) | rewrite (find_cn_key _ _ _ Fn); exact Fn].
       replace {| t := t k; regs := regs k; cns := cns k; expect := expect k |} with k in * by (destruct k; reflexivity).
       eapply (R_add_waiter _ _ kk cn' (k_oid cn) c H1); cbn [conns objs with_conns]; auto.
@@ -1018,10 +1032,11 @@ Qed.
 Lemma R_circ_state s1 k1 cid oid c stt :
   R s1 k1 -> lookup cid (circs s1) = Some oid -> nth_error (objs s1) oid = Some c ->
   cinv (circ_state s1 cid oid c stt) ->
+  (c_fired c = Some FOk -> stt = CBuilt \/ c_terminal stt = true) ->
   R (circ_state s1 cid oid c stt)
     {| t := tor_circ (t k1) cid stt; regs := regs k1; cns := cns k1; expect := expect k1 |}.
 Proof.
-  intros H L E CI.
+  intros H L E CI Hnext.
   assert (Hlen : (oid < List.length (objs s1))%nat) by (apply nth_error_Some; congruence).
   pose proof (R_alive_fired _ _ H _ _ _ L E) as AF.
   assert (Hcid : c_id c = cid).
@@ -1055,6 +1070,21 @@ Proof.
     + split; [constructor|]. split; [reflexivity | intros ? []].
     + split; [exact ND|]. split; [exact Hf | exact Hw].
   - intros x Hin. rewrite set_nth_length. exact (R_conn_oid _ _ H x Hin).
+  - intros oid' x X Fx. apply Hget in X as [[-> ->]|[_ X]]; [|exact (R_fired_st _ _ H _ _ X Fx)].
+    unfold circ_obj, fires in *. cbn [c_st c_fired] in *.
+    destruct (c_fired c) as [f|] eqn:Fc.
+    + apply Hnext. destruct stt; exact Fx.
+    + destruct stt; try discriminate Fx. left. reflexivity.
+  - intros x Hin St. destruct (R_started _ _ H x Hin St) as (c0 & E0 & F0).
+    destruct (Nat.eq_dec (k_oid x) oid) as [Eq|Hne].
+    + rewrite Eq in *. rewrite E in E0. injection E0 as <-. exists (circ_obj c stt).
+      split; [apply nth_error_set_nth_eq; exact Hlen|]. unfold circ_obj, fires. cbn [c_fired]. rewrite F0. destruct stt; reflexivity.
+    + exists c0. split; [rewrite nth_error_set_nth_neq by congruence; exact E0 | exact F0].
+  - intros r Hr. destruct (R_regs_fired _ _ H r Hr) as (c0 & E0 & F0). cbn [regs] in *.
+    destruct (Nat.eq_dec (r_oid r) oid) as [Eq|Hne].
+    + rewrite Eq in *. rewrite E in E0. injection E0 as <-. exists (circ_obj c stt).
+      split; [apply nth_error_set_nth_eq; exact Hlen|]. unfold circ_obj, fires. cbn [c_fired]. rewrite F0. destruct stt; reflexivity.
+    + exists c0. split; [rewrite nth_error_set_nth_neq by congruence; exact E0 | exact F0].
 Qed.
 
 Lemma keeps_inv_back s r : keeps s r -> cinv (fst r) -> cinv s.
@@ -1171,17 +1201,23 @@ Proof.
   - intros oid' x X. apply nth_error_snoc_cases in X as [X|[-> ->]]; [exact (R_wait _ _ H _ _ X)|].
     cbn [new_obj c_wait c_fired]. split; [constructor|]. split; [reflexivity | intros ? []].
   - intros x Hin. rewrite app_length. pose proof (R_conn_oid _ _ H x Hin). lia.
+  - intros oid' x X Fx. apply nth_error_snoc_cases in X as [X|[_ ->]]; [exact (R_fired_st _ _ H _ _ X Fx) | discriminate Fx].
+  - intros x Hin St. destruct (R_started _ _ H x Hin St) as (c0 & E0 & F0). exists c0. split; [|exact F0].
+    rewrite nth_error_app1; [exact E0 | apply nth_error_Some; congruence].
+  - intros r Hr. destruct (R_regs_fired _ _ H r Hr) as (c0 & E0 & F0). exists c0. split; [|exact F0].
+    rewrite nth_error_app1; [exact E0 | apply nth_error_Some; congruence].
 Qed.
 
 Lemma circ_alive_step s1 k1 cid oid stt :
   R s1 k1 -> lookup cid (circs s1) = Some oid ->
+  (forall c, nth_error (objs s1) oid = Some c -> c_fired c = Some FOk -> stt = CBuilt \/ c_terminal stt = true) ->
   exists k', finish (tor_circ (t k1) cid stt) (regs k1) (cns k1) (expect k1) (snd (circ_rest s1 cid oid stt)) []
                     (exactly 0) none_raised [] = Some k'
              /\ R (fst (circ_rest s1 cid oid stt)) k'.
 Proof.
-  intros H L. destruct (proj2 (R_cinv _ _ H) cid oid L) as (c & E & Hid).
+  intros H L Hnext. destruct (proj2 (R_cinv _ _ H) cid oid L) as (c & E & Hid).
   rewrite (circ_rest_explicit _ _ _ _ _ E). cbn [fst snd].
-  pose proof (R_circ_state s1 k1 cid oid c stt H L E (cinv_circ_state _ _ _ _ _ _ H L E)) as H1.
+  pose proof (R_circ_state s1 k1 cid oid c stt H L E (cinv_circ_state _ _ _ _ _ _ H L E) (Hnext c E)) as H1.
   destruct (R_wait _ _ H _ _ E) as (ND & Hfw & Hw).
   pose proof (R_alive_fired _ _ H _ _ _ L E) as AF.
   assert (Hlen : (oid < List.length (objs s1))%nat) by (apply nth_error_Some; congruence).
@@ -1234,16 +1270,22 @@ Lemma step_circ s k cid stt : R s k -> legal (t k) (OCirc cid stt) = true ->
   exists k', chk_op k (OCirc cid stt) (snd (step s (OCirc cid stt))) = Some k' /\ R (fst (step s (OCirc cid stt))) k'.
 Proof.
   intros H L. unfold chk_op. rewrite L. cbn [negb step tor_step]. cbn [legal] in L.
-  apply andb_true_iff in L as [L _]. apply andb_true_iff in L as [Lc _]. apply N.ltb_lt in Lc.
+  apply andb_true_iff in L as [L Lnext]. apply andb_true_iff in L as [Lc _]. apply N.ltb_lt in Lc.
   rewrite op_circ_unfold. destruct (lookup cid (circs s)) as [oid|] eqn:Lk.
-  - apply circ_alive_step; assumption.
+  - apply circ_alive_step; [assumption | assumption |].
+    intros c E Fc. rewrite (R_alive _ _ H), Lk, (R_incs _ _ H), nth_error_map, E in Lnext. cbn [option_map inc_of i_st] in Lnext.
+    destruct (R_fired_st _ _ H _ _ E Fc) as [B|T].
+    + rewrite B in Lnext. destruct stt; try discriminate Lnext. right. reflexivity.
+    + destruct (c_st c); discriminate.
   - cbn zeta. change (with_circs (with_objs s (objs s ++ [{| c_id := cid; c_st := stt; c_fired := None; c_wait := [] |}]))
                                  (circs s ++ [(cid, List.length (objs s))])) with (created s cid stt).
     rewrite circ_rest_created.
     rewrite (tor_circ_created (t k) cid stt) by (rewrite (R_alive _ _ H); exact Lk).
     pose proof (R_created s k cid H Lk Lc) as H1.
     apply (circ_alive_step _ _ cid (List.length (objs s)) stt H1).
-    unfold created. cbn [circs with_circs]. rewrite lookup_app, Lk. unfold lookup. cbn [find fst snd]. now rewrite N.eqb_refl.
+    + unfold created. cbn [circs with_circs]. rewrite lookup_app, Lk. unfold lookup. cbn [find fst snd]. now rewrite N.eqb_refl.
+    + intros c E Fc. unfold created in E. cbn [objs with_objs with_circs] in E.
+      rewrite nth_error_app2, Nat.sub_diag in E by lia. cbn in E. injection E as <-. discriminate Fc.
 Qed.
 
 (* ------------------------------------------------------------------ connect() *)
@@ -1290,6 +1332,7 @@ Proof.
     + intros c Hin. apply in_app_or in Hin as [Hin|[<-|[]]]; [exact (R_conn_oid _ _ H c Hin) | exact Ho].
     + rewrite map_app. cbn [map k_id new_conn]. apply NoDup_app_end; [exact (R_nodup _ _ H) | exact Hnin].
     + intros r Hr. destruct (R_regs _ _ H r Hr) as (Ha & cn & F & X). split; [exact Ha|]. exists cn. split; [apply Fold; exact F | exact X].
+    + intros c Hin St. apply in_app_or in Hin as [Hin|[<-|[]]]; [exact (R_started _ _ H c Hin St) | discriminate St].
     + destruct (R_conts _ _ H) as [ND AS]. split; [exact ND|]. intros k0 Hin. destruct (AS k0 Hin) as (cn & F & X).
       exists cn. cbn [conns with_conns]. split; [apply Fold; exact F | exact X].
   - rewrite find_conn_app, Fn. unfold find_conn. cbn [find k_id new_conn]. now rewrite Nat.eqb_refl.
@@ -1425,7 +1468,8 @@ Proof.
                      {| t := tor_addr (t k) ip port kk; regs := regs k; cns := upd_cn (cn_local n) (cns k); expect := expect k |}).
       { eapply (R_put_conn s _ kk cn n cn' (cn_local n) Ha F Fn); try reflexivity; try assumption.
         - unfold stage_flags, cn'. cbn. rewrite Hs, Hso, Hd, Hka, Hat. repeat split; auto; congruence.
-        - intros _. left. reflexivity. }
+        - intros _. left. reflexivity.
+        - subst cn'. cbn [k_stage]. discriminate. }
       assert (Tnone : table_get (ip, port) (table s) = None).
       { rewrite (R_table _ _ H), table_get_regs. destruct (find_reg ip port (regs k)) as [r|] eqn:Fr; [|reflexivity].
         unfold find_reg in Fr. apply find_some in Fr as [Hin E]. apply andb_true_iff in E as [E1 E2].
@@ -1439,6 +1483,8 @@ Proof.
         cbn [r_ip r_port r_oid r_k]. split.
         -- rewrite find_addr_app, Lfresh. unfold find_addr. cbn [find fst snd]. now rewrite !N.eqb_refl.
         -- exists cn'. split; [apply find_put_same; [congruence | reflexivity]|]. split; [cbn; congruence | left; reflexivity].
+      * intros r Hr. apply in_app_or in Hr as [Hr|[<-|[]]]; [exact (R_regs_fired _ _ H1 r Hr)|].
+        cbn [r_oid]. rewrite Ho. exact (R_started _ _ H cn (proj2 (find_conn_id _ _ _ F)) St).
     + destruct SF as (_ & -> & _). rewrite andb_false_r. exact Quiet.
     + destruct SF as (_ & -> & _). rewrite andb_false_r. exact Quiet.
     + rewrite SF, andb_false_r. exact Quiet.
@@ -1478,7 +1524,8 @@ Proof.
       - cbn [conn_finish fst]. rewrite (set_stage_eq _ _ _ _ F). rewrite upd_cn_twice by (cbn; congruence).
         eapply (R_put_conn s k kk cn n _ (cn_done c1) H F Fn); try reflexivity; try assumption.
         + unfold stage_flags. cbn. repeat split; congruence.
-        + intros _. right. right. reflexivity. }
+        + intros _. right. right. reflexivity.
+        + cbn [k_stage]. discriminate. }
     destruct ok.
     + destruct (k_att cn) as [r|] eqn:Ka.
       * (* attached_d has fired already *)
@@ -1497,6 +1544,7 @@ Proof.
         eapply (R_put_conn s k kk cn n _ (cn_socks n true) H F Fn); try reflexivity; try assumption.
         -- unfold stage_flags. cbn. rewrite Hs, Hl, Hd, Na, Ka. repeat split; congruence.
         -- intros _. right. left. reflexivity.
+        -- cbn [k_stage]. discriminate.
     + apply (Done (RFail 5) (cn_socks n false)); try reflexivity; try assumption.
       * cbn. congruence.
       * unfold both_ok. cbn. destruct (n_att n) as [[|]|]; reflexivity.
@@ -1510,48 +1558,6 @@ Lemma hents_app i a b : hents i (a ++ b) = hents i a ++ hents (i + List.length a
 Proof.
   revert i. induction a as [|x a IH]; intros i; cbn [app hents List.length]; [now rewrite Nat.add_0_r|].
   rewrite IH. replace (S i + List.length a)%nat with (i + S (List.length a))%nat by lia. reflexivity.
-Qed.
-
-Lemma hents_length i l : List.length (hents i l) = List.length l.
-Proof. revert i. induction l as [|x l IH]; intros i; cbn; [reflexivity | now rewrite IH]. Qed.
-
-Lemma in_hents e i l : In e (hents i l) -> exists n x, nth_error l n = Some x /\ e = hent_at (i + n) x.
-Proof.
-  revert i. induction l as [|y l IH]; intros i; cbn [hents]; [intros []|].
-  intros [<-|Hin].
-  - exists 0%nat, y. split; [reflexivity | now rewrite Nat.add_0_r].
-  - destruct (IH _ Hin) as (n & x & E & ->). exists (S n), x. split; [exact E | f_equal; lia].
-Qed.
-
-Lemma siftdown_stays fuel h x pos : (forall e, In e h -> hlt x e = false) -> siftdown fuel h x pos = set_nth pos x h.
-Proof.
-  intros H. destruct fuel as [|f]; destruct pos as [|p']; cbn [siftdown]; try reflexivity.
-  destruct (nth_error h (Nat.div2 p')) as [p|] eqn:E; [|reflexivity].
-  rewrite (H p (nth_error_In _ _ E)). reflexivity.
-Qed.
-
-Lemma heappush_last h x : (forall e, In e h -> hlt x e = false) -> hlt x x = false -> heappush h x = h ++ [x].
-Proof.
-  intros H Hx. unfold heappush. rewrite siftdown_stays; [apply set_nth_snoc|].
-  intros e Hin. apply in_app_or in Hin as [Hin|[<-|[]]]; auto.
-Qed.
-
-(* every entry of a sorted list is at most the last one *)
-Lemma sorted_snoc_le l x : prio_sorted (l ++ [x]) = true -> forall y, In y l -> sb_prio y <= sb_prio x.
-Proof.
-  induction l as [|a l IH]; intros S y Hin; [destruct Hin|].
-  cbn [app] in S. destruct l as [|b l'].
-  - cbn in S. destruct Hin as [<-|[]]. rewrite andb_true_r in S. now apply N.leb_le.
-  - cbn [app prio_sorted] in S. apply andb_true_iff in S as [S1 S2]. apply N.leb_le in S1.
-    destruct Hin as [<-|Hin].
-    + specialize (IH S2 b (or_introl eq_refl)). lia.
-    + apply IH; assumption.
-Qed.
-
-Lemma sorted_snoc_prefix l x : prio_sorted (l ++ [x]) = true -> prio_sorted l = true.
-Proof.
-  induction l as [|a l IH]; intros S; [reflexivity|]. destruct l as [|b l']; [reflexivity|].
-  cbn [app prio_sorted] in *. apply andb_true_iff in S as [S1 S2]. rewrite S1. cbn [andb]. apply IH. exact S2.
 Qed.
 
 Lemma live_index_app j i a b :
@@ -1579,25 +1585,17 @@ Proof.
   destruct (Nat.eqb (fst x) j); [discriminate | exact IH].
 Qed.
 
-Lemma step_prioadd s k j p : R s k -> legal (t k) (OPrioAdd j p) = true -> clean_op (t k) (OPrioAdd j p) = true ->
+Lemma step_prioadd s k j p : R s k -> legal (t k) (OPrioAdd j p) = true ->
   exists k', chk_op k (OPrioAdd j p) (snd (step s (OPrioAdd j p))) = Some k' /\ R (fst (step s (OPrioAdd j p))) k'.
 Proof.
-  intros H L C. unfold chk_op. rewrite L. cbn [negb step tor_step]. cbn [legal] in L. cbn [clean_op] in C.
+  intros H L. unfold chk_op. rewrite L. cbn [negb step tor_step]. cbn [legal] in L.
   apply andb_true_iff in L as [_ Lj]. apply negb_true_iff in Lj.
   eexists. split; [apply finish_intro; reflexivity|]. unfold op_prioadd. cbn [fst].
   set (new := {| sb_j := j; sb_prio := p; sb_live := true |}) in *.
   set (x := {| h_prio := p; h_cnt := Attach.cnt s; h_att := Some j |}).
   assert (Hx : x = hent_at (List.length (subs (t k))) new) by (unfold hent_at, x, new; cbn; now rewrite (R_cnt _ _ H)).
-  assert (Hpush : heappush (heap s) x = hents 0 (subs (t k) ++ [new])).
-  { rewrite hents_app. cbn [hents Nat.add]. rewrite <- Hx, (R_heap _ _ H). apply heappush_last.
-    - intros e Hin. apply in_hents in Hin as (n & y & E & ->). cbn [Nat.add].
-      pose proof (sorted_snoc_le _ _ C y (nth_error_In _ _ E)) as Hle. cbn [sb_prio new] in Hle.
-      assert (Hn : (n < List.length (subs (t k)))%nat) by (apply nth_error_Some; congruence).
-      unfold hlt, hent_at, x. cbn [h_prio h_cnt]. rewrite (R_cnt _ _ H).
-      replace (p <? sb_prio y) with false by (symmetry; apply N.ltb_ge; exact Hle).
-      replace (N.of_nat (List.length (subs (t k))) <? N.of_nat n) with false by (symmetry; apply N.ltb_ge; lia).
-      now rewrite andb_false_r.
-    - unfold hlt. rewrite !N.ltb_irrefl. now rewrite andb_false_r. }
+  assert (Hpush : Permutation (heappush (heap s) x) (hents 0 (subs (t k) ++ [new]))).
+  { rewrite heappush_perm, hents_app. cbn [hents Nat.add]. rewrite <- Hx. apply Permutation_app_tail. exact (R_heap _ _ H). }
   assert (Hent : assoc_get j (entry s) = None) by (rewrite (R_entry _ _ H); apply live_index_none; exact Lj).
   constructor; same_fields H; cbn [t subs set_subs heap Attach.cnt entry with_prio].
   - exact Hpush.
@@ -1606,7 +1604,6 @@ Proof.
     destruct (live_index j' 0 (subs (t k))); [reflexivity|].
     unfold assoc_get. cbn [find fst snd live_index sb_j sb_live new Nat.add]. rewrite andb_true_r.
     destruct (Nat.eqb j j'); [now rewrite (R_cnt _ _ H) | reflexivity].
-  - exact C.
   - intros j' i1 i2 x1 x2 E1 E2 J1 J2 L1 L2.
     apply nth_error_snoc_cases in E1 as [E1|[-> ->]]; apply nth_error_snoc_cases in E2 as [E2|[-> ->]].
     + exact (R_live1 _ _ H j' i1 i2 x1 x2 E1 E2 J1 J2 L1 L2).
@@ -1640,21 +1637,6 @@ Qed.
 
 Lemma kill_sub_length j l : List.length (kill_sub j l) = List.length l.
 Proof. induction l as [|a l IH]; cbn [kill_sub]; [reflexivity|]. destruct (_ && _); cbn; congruence. Qed.
-
-Definition hd_prio (l : list sub) : option N := match l with [] => None | b :: _ => Some (sb_prio b) end.
-Lemma hd_prio_kill j l : hd_prio (kill_sub j l) = hd_prio l.
-Proof. destruct l as [|a l]; cbn [kill_sub]; [reflexivity|]. destruct (_ && _); reflexivity. Qed.
-Lemma prio_sorted_cons a l :
-  prio_sorted (a :: l) = match hd_prio l with None => true | Some p => (sb_prio a <=? p) && prio_sorted l end.
-Proof. destruct l; reflexivity. Qed.
-
-Lemma kill_sub_sorted j l : prio_sorted (kill_sub j l) = prio_sorted l.
-Proof.
-  induction l as [|a l IH]; cbn [kill_sub]; [reflexivity|].
-  destruct (Nat.eqb (sb_j a) j && sb_live a).
-  - rewrite !prio_sorted_cons. reflexivity.
-  - rewrite !prio_sorted_cons, hd_prio_kill, IH. reflexivity.
-Qed.
 
 Lemma kill_sub_none j l : existsb (fun x => Nat.eqb (sb_j x) j && sb_live x) l = false -> kill_sub j l = l.
 Proof.
@@ -1724,7 +1706,7 @@ Proof.
   - symmetry in He.
     eexists. split; [apply finish_intro; reflexivity|]. cbn [fst].
     constructor; same_fields H; cbn [t subs set_subs heap Attach.cnt entry with_prio].
-    + rewrite (R_heap _ _ H). apply hents_kill. exact He.
+    + rewrite <- (hents_kill j _ _ _ He). apply Permutation_map. exact (R_heap _ _ H).
     + rewrite kill_sub_length. exact (R_cnt _ _ H).
     + intros j'. rewrite assoc_get_filter. destruct (Nat.eqb j j') eqn:E.
       * apply Nat.eqb_eq in E. subst j'. symmetry. apply live_index_none. apply not_true_is_false. intros X.
@@ -1735,7 +1717,6 @@ Proof.
         pose proof (R_live1 _ _ H j n n0 x x0 E0 E1 Q1 J1 Q2 L1) as Hn. subst n0.
         rewrite K1 in En. injection En as <-. discriminate Q2.
       * rewrite live_index_other; [exact (R_entry _ _ H j') | apply Nat.eqb_neq; exact E].
-    + rewrite kill_sub_sorted. exact (R_sorted _ _ H).
     + intros j' i1 i2 x1 x2 E1 E2 J1 J2 L1 L2.
       destruct (kill_sub_nth j _ _ _ E1) as [E1'|(y & _ & -> & _)]; [|discriminate L1].
       destruct (kill_sub_nth j _ _ _ E2) as [E2'|(y & _ & -> & _)]; [|discriminate L2].
@@ -1746,63 +1727,6 @@ Proof.
 Qed.
 
 (* ------------------------------------------------------------------ a STREAM event *)
-Lemma beqb_prefixb a l : beqb a l = true -> prefixb a l = true.
-Proof.
-  revert l. induction a as [|x a IH]; intros [|y l] H; cbn in *; try discriminate; try reflexivity.
-  apply andb_true_iff in H as [H1 H2]. rewrite H1. cbn. now apply IH.
-Qed.
-
-Lemma ends_with_contains suf l : ends_with suf l = true -> contains suf l = true.
-Proof.
-  induction l as [|y l IH]; cbn [ends_with contains]; intros H.
-  - rewrite orb_false_r in *. now apply beqb_prefixb.
-  - apply orb_true_iff in H as [H|H]; [now rewrite (beqb_prefixb _ _ H) | rewrite (IH H); apply orb_true_r].
-Qed.
-
-Lemma exit_test_agrees h : exit_inside h = false -> contains (str ".exit") h = is_exit_host h.
-Proof.
-  unfold exit_inside, is_exit_host. intros E.
-  destruct (ends_with (str ".exit") h) eqn:X; [now apply ends_with_contains|].
-  cbn [negb] in E. now rewrite andb_true_r in E.
-Qed.
-
-Lemma insert_sub_head x l : (forall y, hd_prio l = Some y -> sb_prio x <= y) -> insert_sub x l = x :: l.
-Proof.
-  destruct l as [|y l]; cbn [insert_sub hd_prio]; [reflexivity|]. intros H.
-  replace (sb_prio x <=? sb_prio y) with true; [reflexivity|]. symmetry. apply N.leb_le. now apply H.
-Qed.
-
-Lemma sorted_tail a l : prio_sorted (a :: l) = true -> prio_sorted l = true.
-Proof. destruct l as [|b l]; [reflexivity|]. cbn [prio_sorted]. intros H. now apply andb_true_iff in H as [_ H]. Qed.
-
-Lemma sorted_all_ge a l : prio_sorted (a :: l) = true -> forall y, In y l -> sb_prio a <= sb_prio y.
-Proof.
-  revert a. induction l as [|b l IH]; intros a S y Hin; [destruct Hin|].
-  cbn [prio_sorted] in S. apply andb_true_iff in S as [S1 S2]. apply N.leb_le in S1.
-  destruct Hin as [<-|Hin]; [exact S1|]. specialize (IH b S2 y Hin). lia.
-Qed.
-
-Lemma sorted_filter f l : prio_sorted l = true -> prio_sorted (filter f l) = true.
-Proof.
-  induction l as [|a l IH]; intros S; [reflexivity|]. cbn [filter].
-  pose proof (sorted_tail _ _ S) as St. destruct (f a); [|apply IH; exact St].
-  rewrite prio_sorted_cons. destruct (hd_prio (filter f l)) as [p|] eqn:Hh; [|reflexivity].
-  rewrite (IH St), andb_true_r. apply N.leb_le.
-  destruct (filter f l) as [|b r] eqn:Fl; [discriminate|]. cbn [hd_prio] in Hh. injection Hh as <-.
-  apply (sorted_all_ge a l S b). assert (In b (filter f l)) by (rewrite Fl; left; reflexivity).
-  apply filter_In in H as [H _]. exact H.
-Qed.
-
-Lemma insert_sorted_id l : prio_sorted l = true -> fold_right insert_sub [] l = l.
-Proof.
-  induction l as [|a l IH]; intros S; [reflexivity|]. cbn [fold_right]. rewrite (IH (sorted_tail _ _ S)).
-  apply insert_sub_head. intros y Hy. destruct l as [|b l']; [discriminate|]. cbn [hd_prio] in Hy. injection Hy as <-.
-  cbn [prio_sorted] in S. apply andb_true_iff in S as [S1 _]. now apply N.leb_le.
-Qed.
-
-Lemma prio_order_sorted l : prio_sorted l = true -> prio_order l = map sb_j (filter sb_live l).
-Proof. intros S. unfold prio_order. now rewrite (insert_sorted_id _ (sorted_filter _ _ S)). Qed.
-
 Lemma returns_none_plain s tt a : incs tt = map inc_of (objs s) -> akind_ok tt (a_kind a) = true ->
   returns_none s a = plain_none a.
 Proof.
@@ -1819,16 +1743,21 @@ Qed.
 
 Lemma prio_consult_corr s tt sid answers : incs tt = map inc_of (objs s) ->
   forallb (fun a => akind_ok tt (a_kind a)) answers = true ->
-  forall l i, prio_consult s sid answers (hents i l) =
-    (map (fun j => EAsked j sid) (fst (consult (map sb_j (filter sb_live l)) answers)),
-     snd (consult (map sb_j (filter sb_live l)) answers)).
+  forall E, prio_consult s sid answers E =
+    (map (fun j => EAsked j sid) (fst (consult (live_js E) answers)), snd (consult (live_js E) answers)).
 Proof.
-  intros Hi Ok. induction l as [|x l IH]; intros i; cbn [hents prio_consult filter map consult fst snd]; [reflexivity|].
-  cbn [hent_at h_att]. destruct (sb_live x); cbn [map consult].
-  - rewrite (returns_none_plain s tt _ Hi (ans_ok _ _ _ Ok)).
-    destruct (plain_none (ans answers (sb_j x))); [|reflexivity].
-    rewrite IH. destruct (consult (map sb_j (filter sb_live l)) answers) as [q w]. reflexivity.
-  - apply IH.
+  intros Hi Ok. induction E as [|e E IH]; [reflexivity|].
+  rewrite live_js_cons. cbn [prio_consult]. destruct (h_att e) as [j|]; cbn [app consult]; [|exact IH].
+  rewrite (returns_none_plain s tt _ Hi (ans_ok _ _ _ Ok)).
+  destruct (plain_none (ans answers j)); [|reflexivity].
+  rewrite IH. destruct (consult (live_js E) answers) as [q w]. reflexivity.
+Qed.
+
+(* the sorted copy of the heap array lists the live sub-attachers in the Spec's priority order *)
+Lemma heap_order s k : R s k -> live_js (sort_hents (heap s)) = prio_order (subs (t k)).
+Proof.
+  intros H. rewrite <- (sorted_copy_is_priority_order (subs (t k)) 0).
+  f_equal. symmetry. apply sort_perm_eq; [apply hents_cnt_nodup | apply Permutation_sym; exact (R_heap _ _ H)].
 Qed.
 
 Lemma put_conn_same cn cs : NoDup (map k_id cs) -> find_conn (k_id cn) cs = Some cn -> put_conn cn cs = cs.
@@ -1851,19 +1780,21 @@ Proof.
   intros H. constructor; same_fields H; cbn [t regs cns expect table with_table].
   - rewrite (R_table _ _ H). apply table_del_regs.
   - intros r Hr. unfold remove_reg in Hr. apply filter_In in Hr as [Hr _]. exact (R_regs _ _ H r Hr).
+  - intros r Hr. unfold remove_reg in Hr. apply filter_In in Hr as [Hr _]. exact (R_regs_fired _ _ H r Hr).
 Qed.
 
-(* attached_d fires with success *)
-Lemma att_fire_R s k kk cn n : R s k -> find_conn kk (conns s) = Some cn -> in_reg_stage (k_stage cn) ->
+(* attached_d fires: r/b = ROk/true (the stream went to the circuit) or RFail/false (the circuit is unusable) *)
+Lemma att_fire_R s k kk cn n r b : R s k -> find_conn kk (conns s) = Some cn -> in_reg_stage (k_stage cn) ->
   find_cn kk (cns k) = Some n -> stage_flags cn n ->
-  let c1 := cn_att n true in
+  att_rel (Some r) (Some b) ->
+  let c1 := cn_att n b in
   exists cs2,
-    conn_events (t k) (upd_cn c1 (cns k)) (snd (att_fire s kk ROk)) = Some cs2 /\
-    musts_met (if both_ok c1 && negb (n_done c1) then [(kk, true)] else []) (dones (snd (att_fire s kk ROk))) = true /\
-    conn_only (snd (att_fire s kk ROk)) /\
-    R (fst (att_fire s kk ROk)) {| t := t k; regs := regs k; cns := cs2; expect := expect k |}.
+    conn_events (t k) (upd_cn c1 (cns k)) (snd (att_fire s kk r)) = Some cs2 /\
+    musts_met (if both_ok c1 && negb (n_done c1) then [(kk, true)] else []) (dones (snd (att_fire s kk r))) = true /\
+    conn_only (snd (att_fire s kk r)) /\
+    R (fst (att_fire s kk r)) {| t := t k; regs := regs k; cns := cs2; expect := expect k |}.
 Proof.
-  intros H F Hst Fn SF c1.
+  intros H F Hst Fn SF Hrb c1.
   pose proof (find_conn_id _ _ _ F) as [Hcid _]. destruct SF as (Hk & Ho & SF).
   assert (Hnk : ~ In kk (kconns s)).
   { intros Hin. destruct (proj2 (R_conts _ _ H) kk Hin) as (cn0 & F0 & S0). rewrite F in F0. injection F0 as <-.
@@ -1871,25 +1802,31 @@ Proof.
   assert (Hnw : not_waiting s kk).
   { eapply not_waiting_of_stage; eauto. destruct Hst as [X|[X|X]]; congruence. }
   assert (Fc1 : find_cn kk (upd_cn c1 (cns k)) = Some c1) by (apply find_upd_same; [congruence | cbn; congruence]).
+  assert (Hfine : n_socks n = Some true -> (match r with ROk => both_ok c1 | RFail _ => negb (both_ok c1) end) = true).
+  { intros So. unfold both_ok, c1. cbn. rewrite So. destruct r, b; cbn in Hrb; try contradiction; reflexivity. }
   unfold att_fire. rewrite F. destruct Hst as [St|[St|St]]; rewrite St in *.
   - (* KLocal: remembered for later *)
     destruct SF as (Hs & Hl & Hso & Hd & Hat).
     exists (upd_cn c1 (cns k)). split; [reflexivity|]. split.
-    { unfold both_ok, c1. cbn. rewrite Hso. reflexivity. }
+    { unfold both_ok, c1. cbn. rewrite Hso. destruct b; reflexivity. }
     split; [apply conn_only_nil|]. cbn [fst].
     eapply (R_put_conn s k kk cn n _ c1 H F Fn); try reflexivity; try assumption.
     + unfold stage_flags, c1. cbn. repeat split; auto; congruence.
     + cbn [k_stage]. intros _. left. reflexivity.
+    + cbn [k_stage]. discriminate.
   - (* KWaitAtt: connect() completes *)
     destruct SF as (Hs & Hl & Hso & Hat & Hd & Hka).
-    assert (Hb : both_ok c1 = true) by (unfold both_ok, c1; cbn; now rewrite Hso).
     exists (upd_cn (cn_done c1) (cns k)). split.
-    { cbn [conn_finish snd]. rewrite (conn_event_done _ _ kk c1 ROk Fc1); [now rewrite upd_cn_twice by reflexivity | exact Hd | exact Hb]. }
-    split. { rewrite Hb. cbn. rewrite Hd. cbn. now rewrite Nat.eqb_refl. }
+    { cbn [conn_finish snd]. rewrite (conn_event_done _ _ kk c1 r Fc1); [now rewrite upd_cn_twice by reflexivity | exact Hd | exact (Hfine Hso)]. }
+    split.
+    { cbn [conn_finish snd dones map List.concat app]. destruct (both_ok c1 && negb (n_done c1)) eqn:Q; [|reflexivity].
+      apply andb_true_iff in Q as [Q _]. specialize (Hfine Hso). destruct r; [|rewrite Q in Hfine; discriminate].
+      cbn. now rewrite Nat.eqb_refl. }
     split; [apply conn_finish_only|]. cbn [conn_finish fst]. rewrite (set_stage_eq _ _ _ _ F).
     eapply (R_put_conn s k kk cn n _ (cn_done c1) H F Fn); try reflexivity; try assumption.
     + unfold stage_flags. cbn. repeat split; congruence.
     + intros _. right. right. reflexivity.
+    + cbn [k_stage]. discriminate.
   - (* KDone: nobody is listening any more *)
     exists (upd_cn c1 (cns k)). split; [reflexivity|]. split.
     { unfold c1. cbn [cn_att n_done]. rewrite SF. now rewrite andb_false_r. }
@@ -1900,13 +1837,7 @@ Proof.
     apply X; try assumption.
     + unfold stage_flags, c1. rewrite St. cbn. repeat split; congruence.
     + intros Y. exact Y.
-Qed.
-
-Lemma find_kid_conn s k kk cn : R s k -> find_conn kk (conns s) = Some cn -> find_kid kk (kids (t k)) = Some (k_oid cn).
-Proof.
-  intros H F. rewrite (R_kids _ _ H). clear H. unfold find_kid, find_conn in *.
-  induction (conns s) as [|x l IH]; cbn [map find fst] in *; [discriminate|].
-  destruct (Nat.eqb (k_id x) kk); [injection F as <-; reflexivity | apply IH; exact F].
+    + rewrite St. discriminate.
 Qed.
 
 Lemma asked_pre sid q :
@@ -1915,10 +1846,11 @@ Lemma asked_pre sid q :
   forall tt cs, conn_events tt cs pre = Some cs.
 Proof.
   induction q as [|j q IH]; cbn zeta; [repeat split|].
-  destruct IH as (A & B & C & D & E & F). cbn [map]. repeat split; try assumption.
-  - change (askeds (EAsked j sid :: map (fun j0 => EAsked j0 sid) q)) with ((j, sid) :: askeds (map (fun j0 => EAsked j0 sid) q)).
-    now rewrite B.
-  - intros tt cs. cbn [conn_events conn_event]. apply F.
+  destruct IH as (A & B & C & D & E & F). cbn [map]. split; [exact A|]. split.
+  { change (askeds (EAsked j sid :: map (fun j0 => EAsked j0 sid) q)) with ((j, sid) :: askeds (map (fun j0 => EAsked j0 sid) q)).
+    now rewrite B. }
+  split; [exact C|]. split; [exact D|]. split; [exact E|].
+  intros tt cs. cbn [conn_events conn_event]. apply F.
 Qed.
 
 Definition tor_pa (tt : tor) (p : pa) : tor :=
@@ -1959,6 +1891,210 @@ Proof.
       eexists. split.
       * apply finish_intro; try assumption; [now rewrite W | now rewrite Rp | now rewrite Ra | apply CE | reflexivity].
       * constructor; same_fields H; cbn [t pas tor_pa pends with_pends].
-        rewrite map_app, (R_pas _ _ H). reflexivity.
+        pose proof (R_pas _ _ H) as Hp. cbn [t] in Hp. rewrite map_app, Hp. reflexivity.
   - specialize (Now AKNone). cbn zeta in Now. destruct (issue s1 sid AKNone) as [s2 e2]. exact Now.
 Qed.
+
+(* the circuit attacher decides by source address *)
+Definition via_branch (ti tt : tor) (rg : list reg) (cs : list cn) (ex : list cmd) (sid : N) (src : source) (es : list ev) : option chk :=
+  match src with
+  | SrcIp ip port =>
+      match find_reg ip port rg with
+      | Some r =>
+          let built := match nth_error (incs ti) (r_oid r) with
+                       | Some i => if cstatus_eqb (i_st i) CBuilt then Some (i_cid i) else None
+                       | None => None end in
+          let rg' := remove_reg ip port rg in
+          match find_cn (r_k r) cs, built with
+          | Some c, Some cid =>
+              let c1 := cn_att c true in
+              finish tt rg' (upd_cn c1 cs) (ex ++ [CAttach sid cid]) es [] (exactly 0) none_raised
+                     (if both_ok c1 && negb (n_done c1) then [(r_k r, true)] else [])
+          | Some c, None => finish tt rg' (upd_cn (cn_att c false) cs) ex es [] (exactly 0) none_raised []
+          | None, _ => None
+          end
+      | None => finish tt rg cs (ex ++ [CAttach sid 0]) es [] (exactly 0) none_raised []
+      end
+  | _ => finish tt rg cs (ex ++ [CAttach sid 0]) es [] (exactly 0) none_raised []
+  end.
+
+Lemma via_corr s1 ti tt rg cs ex sid src :
+  R s1 {| t := tt; regs := rg; cns := cs; expect := ex |} -> incs ti = incs tt ->
+  exists k2, via_branch ti tt rg cs ex sid src (snd (circ_attach s1 sid src)) = Some k2 /\ R (fst (circ_attach s1 sid src)) k2.
+Proof.
+  intros H Hi.
+  assert (None0 : exists k2, finish tt rg cs (ex ++ [CAttach sid 0]) (snd (issue s1 sid AKNone)) [] (exactly 0) none_raised [] = Some k2
+                             /\ R (fst (issue s1 sid AKNone)) k2).
+  { destruct (issue_corr s1 tt rg cs ex [] [] sid AKNone H eq_refl eq_refl eq_refl eq_refl eq_refl (fun _ _ => eq_refl)) as (k2 & F & HR).
+    exists k2. split; [exact F | exact HR]. }
+  unfold via_branch. destruct src as [|p|ip port]; cbn [circ_attach]; try exact None0.
+  pose proof (R_table _ _ H) as Ht. cbn [regs] in Ht. rewrite Ht, table_get_regs.
+  destruct (find_reg ip port rg) as [r|] eqn:Fr; cbn [option_map]; [|exact None0].
+  assert (Hr : In r rg /\ r_ip r = ip /\ r_port r = port).
+  { unfold find_reg in Fr. apply find_some in Fr as [Hin E]. apply andb_true_iff in E as [E1 E2].
+    apply N.eqb_eq in E1. apply N.eqb_eq in E2. auto. }
+  destruct Hr as (Hin & Hip & Hport).
+  destruct (R_regs _ _ H r Hin) as (_ & cn & F & Ho & Hst). cbn [t regs] in *.
+  destruct (R_regs_fired _ _ H r Hin) as (c & E & Fc).
+  destruct (find_cn_of _ _ _ _ H F) as (n & Fn & SF). cbn [cns] in Fn. rewrite Fn.
+  rewrite Hi. pose proof (R_incs _ _ H) as Hin'. cbn [t] in Hin'. rewrite Hin', nth_error_map, E. cbn [option_map inc_of i_st i_cid].
+  set (s1' := with_table s1 (table_del (ip, port) (map entry_of rg))).
+  change (objs s1') with (objs s1). rewrite E.
+  pose proof (R_del_reg s1 _ ip port H) as Hd. cbn [t regs cns expect] in Hd. rewrite Ht in Hd. fold s1' in Hd.
+  assert (F' : find_conn (r_k r) (conns s1') = Some cn) by exact F.
+  destruct (cstatus_eqb (c_st c) CBuilt) eqn:B.
+  - (* the registered circuit is BUILT: the stream goes to exactly that circuit *)
+    apply cstatus_eqb_eq in B. rewrite B. cbn [c_terminal].
+    destruct (att_fire_R s1' _ (r_k r) cn n ROk true Hd F' Hst Fn SF I) as (cs2 & CE & M & (W & A & Rp & Ra) & HR).
+    cbn [t regs cns expect] in *.
+    pose proof (att_fire_keeps s1' (r_k r) ROk) as (Kobjs & Kcircs & _).
+    unfold then_. destruct (att_fire s1' (r_k r) ROk) as [s2 e2]. cbn [fst snd] in *.
+    assert (Iss : issue s2 sid (AKCirc (r_oid r)) = send s2 (attach_line sid (c_id c)) KAttachCmd).
+    { rewrite (issue_realises s2 sid _ (proj1 (R_cinv _ _ HR)) (lookup_9000 _ _ HR)).
+      cbn [decide_now]. rewrite Kobjs. cbn [objs s1' with_table]. rewrite E, B. reflexivity. }
+    rewrite Iss. destruct (send s2 (attach_line sid (c_id c)) KAttachCmd) as [s3 e3] eqn:Es. cbn [fst snd].
+    replace s3 with (fst (send s2 (attach_line sid (c_id c)) KAttachCmd)) by (rewrite Es; reflexivity).
+    replace e3 with (snd (send s2 (attach_line sid (c_id c)) KAttachCmd)) by (rewrite Es; reflexivity).
+    exact (finish_send_pre s2 tt (remove_reg ip port rg) (upd_cn (cn_att n true) cs) cs2 ex e2 [] _
+                           (attach_line sid (c_id c)) KAttachCmd (CAttach sid (c_id c)) HR I (attach_line_parses _ _) W A Rp Ra CE M).
+  - (* the registered circuit is gone: connect() is told, nothing is sent *)
+    rewrite Fc.
+    assert (T : c_terminal (c_st c) = true).
+    { destruct (R_fired_st _ _ H _ _ E Fc) as [X|X]; [rewrite X in B; discriminate | exact X]. }
+    rewrite T.
+    destruct (att_fire_R s1' _ (r_k r) cn n (RFail 1) false Hd F' Hst Fn SF I) as (cs2 & CE & M & (W & A & Rp & Ra) & HR).
+    cbn [t regs cns expect] in *.
+    unfold then_. destruct (att_fire s1' (r_k r) (RFail 1)) as [s2 e2]. cbn [fst snd issue] in *. rewrite app_nil_r.
+    eexists. split; [|exact HR].
+    apply finish_intro; [now rewrite W | exact A | now rewrite Rp | now rewrite Ra | exact CE | reflexivity].
+Qed.
+
+Lemma filter_notin sid l : memN sid l = false -> filter (fun x => negb (x =? sid)) l = l.
+Proof.
+  unfold memN. induction l as [|y l IH]; cbn [existsb filter]; [reflexivity|]. intros E.
+  apply orb_false_iff in E as [E1 E2]. rewrite N.eqb_sym, E1. cbn [negb]. now rewrite IH.
+Qed.
+
+Lemma R_strs s k l : R s k -> R (with_strs s l) {| t := set_sids (t k) l; regs := regs k; cns := cns k; expect := expect k |}.
+Proof. intros H. constructor; same_fields H. reflexivity. Qed.
+
+Lemma step_stream s k sid stt cid host port src answers :
+  R s k -> legal (t k) (OStream sid stt cid host port src answers) = true ->
+  exists k', chk_op k (OStream sid stt cid host port src answers) (snd (step s (OStream sid stt cid host port src answers))) = Some k'
+             /\ R (fst (step s (OStream sid stt cid host port src answers))) k'.
+Proof.
+  intros H L. unfold chk_op. rewrite L. cbn [negb step tor_step].
+  assert (Ok : forallb (fun a => akind_ok (t k) (a_kind a)) answers = true).
+  { cbn [legal] in L. repeat (apply andb_true_iff in L as [L ?]). assumption. }
+  clear L.
+  unfold op_stream, tor_stream, stream_outcome, first_sight in *.
+  pose proof (R_sids _ _ H) as Hs. rewrite Hs in *.
+  destruct (memN sid (strs s)) eqn:M; cbn [negb andb].
+  - (* a further event of a stream that is known *)
+    rewrite ?Hs, ?M. destruct (s_terminal stt); cbn [fst snd].
+    + eexists. split; [apply finish_intro; reflexivity|]. apply R_strs. exact H.
+    + eexists. split; [apply finish_intro; reflexivity|]. rewrite k_eta. exact H.
+  - destruct (s_terminal stt) eqn:T; cbn [negb].
+    + (* first seen when it is already over *)
+      cbn [fst snd]. rewrite ?Hs. eexists. split; [apply finish_intro; reflexivity|].
+      rewrite (filter_notin _ _ M). rewrite <- Hs.
+      replace (set_sids (t k) (sids (t k))) with (t k) by (destruct (t k); reflexivity). rewrite k_eta. exact H.
+    + (* a new stream *)
+      rewrite ?Hs.
+      pose proof (R_strs s k (strs s ++ [sid]) H) as H1.
+      set (s1 := with_strs s (strs s ++ [sid])) in *.
+      unfold maybe_attach. pose proof (R_slot _ _ H) as Hsl. change (slot s1) with (slot s). rewrite Hsl.
+      destruct (inst (t k)) as [v|] eqn:Hi; cbn [option_map].
+      2:{ cbn [fst snd]. rewrite ?Hs, M. eexists. split; [apply finish_intro; reflexivity | exact H1]. }
+      change (ends_with (str ".exit") (lower host)) with (is_exit_host host).
+      destruct (is_exit_host host) eqn:Ex.
+      { cbn [fst snd]. rewrite ?Hs, M. eexists. split; [apply finish_intro; reflexivity | exact H1]. }
+      destruct v as [j| |]; cbn [slot_of].
+      * (* a custom attacher *)
+        pose proof (asked_corr s1 _ _ _ _ sid [j] (Some (ans answers j)) H1) as X. cbn zeta in X. cbn [map] in X.
+        destruct (ans answers j) as [kd md]. destruct md; cbn [a_mode a_kind sids set_pas] in *; rewrite ?Hs, M; exact X.
+      * (* the priority attacher *)
+        change (heap s1) with (heap s).
+        rewrite (prio_consult_corr s1 (t k) sid answers (R_incs _ _ H) Ok), (heap_order _ _ H).
+        destruct (consult (prio_order (subs (t k))) answers) as [q w]. cbn [fst snd].
+        pose proof (asked_corr s1 _ _ _ _ sid q w H1) as X. cbn zeta in X.
+        destruct w as [[kd md]|]; [destruct md|]; cbn [a_mode a_kind sids set_pas] in *; rewrite ?Hs, M; exact X.
+      * (* the circuit attacher *)
+        rewrite ?Hs, M.
+        exact (via_corr s1 (t k) _ _ _ _ sid src H1 eq_refl).
+Qed.
+
+(* ------------------------------------------------------------------ the whole history *)
+Lemma finish_t tt rg cs pending es asked reports raised must k1 :
+  finish tt rg cs pending es asked reports raised must = Some k1 -> t k1 = tt.
+Proof. intros F. destruct (finish_inv _ _ _ _ _ _ _ _ _ _ F) as (? & ? & _ & _ & _ & _ & _ & _ & ->). reflexivity. Qed.
+
+Lemma chk_op_t k o es k1 : chk_op k o es = Some k1 -> t k1 = tor_step (t k) o.
+Proof.
+  unfold chk_op. destruct (negb (legal (t k) o)); [discriminate|].
+  destruct o; try (intros F; exact (finish_t _ _ _ _ _ _ _ _ _ _ F)).
+  - (* OStream *)
+    destruct (stream_outcome (t k) sid st host answers) as [|who w|].
+    + intros F; exact (finish_t _ _ _ _ _ _ _ _ _ _ F).
+    + destruct w as [[kd md]|]; [destruct md|]; cbn [a_mode]; intros F; exact (finish_t _ _ _ _ _ _ _ _ _ _ F).
+    + destruct src as [|p|ip prt]; try (intros F; exact (finish_t _ _ _ _ _ _ _ _ _ _ F)).
+      destruct (find_reg ip prt (regs k)) as [r|]; [|intros F; exact (finish_t _ _ _ _ _ _ _ _ _ _ F)].
+      destruct (find_cn (r_k r) (cns k)); [|discriminate].
+      destruct (match nth_error (incs (t k)) (r_oid r) with Some i => if cstatus_eqb (i_st i) CBuilt then Some (i_cid i) else None | None => None end);
+        intros F; exact (finish_t _ _ _ _ _ _ _ _ _ _ F).
+  - (* OFire *)
+    destruct (nth_error (pas (t k)) n) as [p|]; [destruct (pa_fired p)|]; intros F; exact (finish_t _ _ _ _ _ _ _ _ _ _ F).
+  - destruct (set_outcome (t k) a); intros F; exact (finish_t _ _ _ _ _ _ _ _ _ _ F).
+  - destruct (conn_outcome (t k)); intros F; exact (finish_t _ _ _ _ _ _ _ _ _ _ F).
+  - destruct (find_cn k0 (cns k)) as [c|]; [destruct (n_started c && negb (n_local c) && negb (n_done c))|];
+      intros F; exact (finish_t _ _ _ _ _ _ _ _ _ _ F).
+  - destruct (find_cn k0 (cns k)) as [c|]; [destruct (n_local c && match n_socks c with None => true | Some _ => false end && negb (n_done c))|];
+      intros F; exact (finish_t _ _ _ _ _ _ _ _ _ _ F).
+  - (* OFlush *)
+    destruct (finish _ _ _ _ _ _ _ _ _) as [r|] eqn:F; [|discriminate]. destruct (expect r); [|discriminate].
+    intros E. injection E as <-. exact (finish_t _ _ _ _ _ _ _ _ _ _ F).
+Qed.
+
+Lemma step_ok s k o : R s k -> legal (t k) o = true -> o <> OFlush ->
+  exists k', chk_op k o (snd (step s o)) = Some k' /\ R (fst (step s o)) k'.
+Proof.
+  intros H L Hne. destruct o.
+  - apply step_circ; assumption.
+  - apply step_stream; assumption.
+  - apply step_fire; assumption.
+  - apply step_setatt; assumption.
+  - apply step_prioadd; assumption.
+  - apply step_priorm; assumption.
+  - apply step_connect; assumption.
+  - apply step_local; assumption.
+  - apply step_socks; assumption.
+  - apply step_reply; assumption.
+  - congruence.
+Qed.
+
+Theorem oracle_holds_from : forall ops s k, R s k -> wf_from (t k) ops = true ->
+  chk_ops k ops (fst (run_from s ops)) = true /\ oos (snd (run_from s ops)) = false.
+Proof.
+  induction ops as [|o r IH]; intros s k H W; [discriminate|].
+  cbn [run_from].
+  destruct (match o with OFlush => true | _ => false end) eqn:IsF.
+  - (* the final flush *)
+    destruct o; try discriminate. destruct r as [|o' r']; [|discriminate W].
+    cbn [step]. destruct (flush_R (S (List.length (queue s))) s k H (or_intror (Nat.lt_succ_diag_r _))) as (k' & F & HR & E).
+    destruct (flush (S (List.length (queue s))) s) as [s1 es]. cbn [fst snd run_from] in *.
+    split; [|exact (R_oos _ _ HR)].
+    cbn [chk_ops]. unfold chk_op. cbn [legal negb tor_step]. rewrite F, E. reflexivity.
+  - assert (Hne : o <> OFlush) by (intros ->; discriminate).
+    assert (WL : legal (t k) o = true /\ wf_from (tor_step (t k) o) r = true).
+    { destruct o; try (cbn [wf_from] in W; apply andb_true_iff in W; exact W). congruence. }
+    destruct WL as [L W'].
+    destruct (step_ok s k o H L Hne) as (k' & F & HR).
+    pose proof (chk_op_t _ _ _ _ F) as Ht.
+    destruct (step s o) as [s1 es]. cbn [fst snd] in *.
+    rewrite <- Ht in W'. destruct (IH s1 k' HR W') as [A B].
+    destruct (run_from s1 r) as [tr s2]. cbn [fst snd] in *.
+    split; [|exact B]. cbn [chk_ops]. rewrite F. exact A.
+Qed.
+
+Theorem oracle_holds : forall ops, wf ops = true -> oracle ops (run ops) = true /\ run_oos ops = false.
+Proof. intros ops W. exact (oracle_holds_from ops st0 chk0 R0 W). Qed.
